@@ -90,10 +90,13 @@ func verifC05(executor, submitters, jobsEach int, closer, panicJob, must, nested
 		})
 		njobs += jobsEach
 	}
+	const closeJob = 200
 	if closer {
 		verifGo(func() {
 			_ = c.Close()
 			l.closeRet = l.tick()
+			// what nbhttp does on close: the close handling is a job that always runs
+			c.MustExecute(l.job(closeJob, false, nil))
 		})
 	}
 	blocked := verifJoin()
@@ -112,6 +115,16 @@ func verifC05(executor, submitters, jobsEach int, closer, panicJob, must, nested
 		if l.closeRet > 0 && l.callAt[id] > l.closeRet && !(must && id == 1) {
 			verifReach("execute-after-close")
 			verifAssertD(!l.accepted[id], "execute-after-close-returns-false", "")
+		}
+	}
+	if closer {
+		verifAssertD(l.starts[closeJob] == 1, "close-handling-job-always-runs", "")
+		for _, id := range ids {
+			if id != closeJob && l.accepted[id] && !(must && id == 1) && l.starts[id] == 1 {
+				// an accepted job was queued while the connection was open, i.e.
+				// before the close handling was queued: it runs before it
+				verifAssertD(l.startAt[id] < l.startAt[closeJob], "close-handling-runs-after-all-accepted-work", "")
+			}
 		}
 	}
 	verifAssertD(l.maxRun <= 1, "jobs-run-one-at-a-time", "")
